@@ -51,6 +51,24 @@ theorem credits_backed (h : Host) (r : Req) (pool : Bool) (cid : Nat) (c : Contr
       refine ⟨fun a => creditPools_apply ds h.pools a, ?_⟩
       first | rfl | trivial
 
+/-- an account named several times in one fund batch is credited every one of its entries -/
+theorem fund_same_account_twice_credits_both (acc : Nat → Nat) (a x y : Nat) :
+    creditAccounts acc [(a, x), (a, y)] a = acc a + x + y := by
+  rw [creditAccounts_apply]
+  simp [depositTo]
+  omega
+
+/-- crediting from a snapshot of the balances (every new balance computed from the balance before
+the batch, then stored) is a different function: the later entry overwrites the earlier one and the
+account receives less than the revision moved -/
+def creditFromSnapshot (acc : Nat → Nat) (ds : List (Nat × Nat)) : Nat → Nat :=
+  ds.foldl (fun f d => upd f d.1 (acc d.1 + d.2)) acc
+
+theorem snapshot_credit_loses_a_deposit :
+    ∃ (a x y : Nat), creditFromSnapshot (fun _ => 0) [(a, x), (a, y)] a < depositTotal [(a, x), (a, y)] ∧
+      creditAccounts (fun _ => 0) [(a, x), (a, y)] a = depositTotal [(a, x), (a, y)] :=
+  ⟨7, 5, 3, by decide, by decide⟩
+
 /-- … and the per-account credits add up to the total the revision moved (one-to-one matching) -/
 theorem credits_sum_to_transfer (ds : List (Nat × Nat)) (keys : List Nat) (hn : keys.Nodup)
     (hk : ∀ d ∈ ds, d.1 ∈ keys) : (keys.map fun a => depositTo a ds).sum = depositTotal ds :=
